@@ -272,6 +272,23 @@ def check(tree, rep, tier='quick', seed=0):
                 rep.ob('R2', key, not bad,
                        f'{y} {fr.name} line {line}: the form says "{_short(text)}" ({ins!r}) but the definition {"; ".join(bad[:2])}', d.where,
                        sample={'line': key, 'instruction': _short(text), 'parsed': repr(ins), 'expected': repr(exp)})
+    # ---- R2.5 amounts carried for the taxpayer and for the spouse come from their own copies (sibling symmetry, shared with C16)
+    from ..symmetry import atom_symmetry
+    sym_exc = {e['line'] for e in load_data('symmetry_exceptions.json')}
+    n_sym = 0
+    for d in an.defs.values():
+        if d.fr.instance == 'spouse':
+            continue
+        other = an.defs.get((d.year, d.fr.name.replace(':you', ':spouse'), d.name)) if d.fr.instance == 'you' else None
+        r = atom_symmetry(d, other)
+        if r is None:
+            continue
+        n_sym += 1
+        ok, missing = r
+        if f'{d.fr.name}.{d.name}' in sym_exc:
+            ok = True
+        rep.ob('R2.5', d.key, ok, f'{d.key} carries amounts for taxpayer and spouse in parallel but reads no counterpart for {missing[:3]}: one of the two gets the other\'s amount', d.where)
+    rep.floor('definitions checked for taxpayer/spouse symmetry', n_sym, 100)
     rep.floor('armed instructions', n_armed, 250)
     rep.count('prose instructions (not armed)', n_prose)
     rep.count('parsed but not armed (operand not implemented / gated line)', n_unarmed)
